@@ -15,6 +15,7 @@ import (
 	"crypto/elliptic"
 	"crypto/rand"
 	"crypto/x509"
+	"encoding/pem"
 	"flag"
 	"fmt"
 	"go/ast"
@@ -63,11 +64,16 @@ func workload(seconds int, probesOut string) error {
 	}
 	sshU, _ := ecdsa.GenerateKey(elliptic.P256(), rand.Reader)
 	sshH, _ := ecdsa.GenerateKey(elliptic.P256(), rand.Reader)
+	k8sKey, _ := ecdsa.GenerateKey(elliptic.P256(), rand.Reader)
+	k8sDER, _ := x509.MarshalPKIXPublicKey(&k8sKey.PublicKey)
+	k8sPub := pem.EncodeToMemory(&pem.Block{Type: "PUBLIC KEY", Bytes: k8sDER})
 	ca, err := fixture.New(fixture.Opts{
 		SSH:  true,
 		From: &fixture.CA{MiniCA: mca, JWK: jwk0, SSHUser: sshU, SSHHost: sshH},
 		Provisioners: provisioner.List{&provisioner.SCEP{Type: "SCEP", Name: "scep", ChallengePassword: "secret",
-			MinimumPublicKeyLength: 2048, EncryptionAlgorithmIdentifier: 2}},
+			MinimumPublicKeyLength: 2048, EncryptionAlgorithmIdentifier: 2},
+			// every K8sSA provisioner has the same token identifier: a second one must be refused without a trace
+			&provisioner.K8sSA{Type: "K8sSA", Name: "k8s-a", PubKeys: k8sPub}},
 		Extra: []authority.Option{authority.WithFullSCEPOptions(&scep.Options{
 			Roots: []*x509.Certificate{mca.Root}, Intermediates: []*x509.Certificate{mca.Intermediate},
 			SignerCert: mca.Intermediate, Signer: mca.Signer, SCEPProvisionerNames: []string{"scep"}})},
@@ -193,6 +199,39 @@ func workload(seconds int, probesOut string) error {
 				if err := a.RemoveAuthorityPolicy(ctx); err == nil {
 					addProbe(probe{"policy-removed", cls(sign("x.denied.test", nil, "")), "issued"})
 				}
+			}
+			// a creation that must be refused (same token identifier as an existing provisioner): refused means no
+			// trace, neither in the running CA nor in the admin database
+			dupName := fmt.Sprintf("k8s-b-%d", round)
+			dup := &linkedca.Provisioner{Type: linkedca.Provisioner_K8SSA, Name: dupName,
+				Details: &linkedca.ProvisionerDetails{Data: &linkedca.ProvisionerDetails_K8SSA{K8SSA: &linkedca.K8SSAProvisioner{PublicKeys: [][]byte{k8sPub}}}}}
+			if err := a.StoreProvisioner(ctx, dup); err != nil {
+				_, memErr := a.LoadProvisionerByName(dupName)
+				inDB := false
+				if all, err := a.GetAdminDatabase().GetProvisioners(ctx); err == nil {
+					for _, x := range all {
+						if x.Name == dupName {
+							inDB = true
+						}
+					}
+				}
+				if memErr != nil && !inDB {
+					addProbe(probe{"provisioner-refused state", "one-of-both", "one-of-both"})
+				} else {
+					addProbe(probe{"provisioner-refused state", fmt.Sprintf("mixed:running=%v stored=%v", memErr == nil, inDB), "one-of-both"})
+					if inDB { // take it out again: the following rounds (and reloads) start from the original state
+						if all, err := a.GetAdminDatabase().GetProvisioners(ctx); err == nil {
+							for _, x := range all {
+								if x.Name == dupName {
+									a.GetAdminDatabase().DeleteProvisioner(ctx, x.Id)
+								}
+							}
+						}
+					}
+				}
+			} else {
+				addProbe(probe{"provisioner-refused state", "mixed:accepted", "one-of-both"})
+				a.RemoveProvisioner(ctx, dup.Id)
 			}
 			// provisioner: add a second JWK, use it, remove it, use it again
 			jwk, _ := jose.GenerateJWK("EC", "P-256", "ES256", "sig", "", 0)
